@@ -1,5 +1,6 @@
 import JominiModel.Proofs.BinTapeDropped
 import JominiModel.Proofs.BinTapePairs
+import JominiModel.Proofs.BinTapeEqTok
 /-
 C03, what the tape leaves out — with context.  Every iteration of the loop acts on the lexeme content
 of the tape by exactly one of four `Move`s (Spec/BinTapeLex.lean): `keep`, `eqAfterKey`, `ghost`,
@@ -70,28 +71,34 @@ theorem Body.bal : ∀ {l : Tape} {ph : Phase}, Body l ph → starts l = ends l
     have := Body.bal h; have := GCont.bal hc; simp; omega
 end
 
-/-- what the only_empties test accepts, token-wise: balanced `{}` pairs, then at most one more token -/
+/-- what the only_empties test accepts, token-wise: balanced `{}` pairs, then at most one more token (which
+then stands at the start or directly behind an `End`) -/
 theorem allEmptyPairs_tok : ∀ (l : Tape), allEmptyPairs l = true →
     ∃ n, (flat l = pairsLex n ∧ l.length / 2 = n) ∨
-      (∃ l0 y, l = l0 ++ [y] ∧ flat l0 = pairsLex n ∧ starts l0 = ends l0 ∧ l.length / 2 = n)
+      (∃ l0 y, l = l0 ++ [y] ∧ flat l0 = pairsLex n ∧ starts l0 = ends l0 ∧ l.length / 2 = n ∧
+        (l0 = [] ∨ ∃ l1 j, l0 = l1 ++ [.end_ j]))
   | [], _ => ⟨0, Or.inl ⟨rfl, rfl⟩⟩
-  | [y], _ => ⟨0, Or.inr ⟨[], y, rfl, rfl, rfl, by simp⟩⟩
+  | [y], _ => ⟨0, Or.inr ⟨[], y, rfl, rfl, rfl, by simp, Or.inl rfl⟩⟩
   | a :: b :: rest, h => by
     cases a <;> cases b <;> simp [allEmptyPairs] at h
     rename_i ea eb
     obtain ⟨n, hn⟩ := allEmptyPairs_tok rest h.2
     refine ⟨n + 1, ?_⟩
-    rcases hn with ⟨h1, h2⟩ | ⟨l0, y, h1, h2, h3, h4⟩
+    rcases hn with ⟨h1, h2⟩ | ⟨l0, y, h1, h2, h3, h4, h5⟩
     · exact Or.inl ⟨by simp [h1, flatten, pairsLex], by simp; omega⟩
     · subst h1
-      refine Or.inr ⟨BTok.array ea :: BTok.end_ eb :: l0, y, by simp, by simp [h2, flatten, pairsLex], ?_, by simp at h4 ⊢; omega⟩
-      have e1 : BTok.array ea :: BTok.end_ eb :: l0 = [BTok.array ea] ++ [BTok.end_ eb] ++ l0 := by simp
-      rw [e1]
-      have a1 : starts [BTok.array ea] = 1 := rfl
-      have a2 : ends [BTok.array ea] = 0 := rfl
-      have a3 : starts [BTok.end_ eb] = 0 := rfl
-      have a4 : ends [BTok.end_ eb] = 1 := rfl
-      simp only [starts_append, ends_append, a1, a2, a3, a4]; omega
+      refine Or.inr ⟨BTok.array ea :: BTok.end_ eb :: l0, y, by simp, by simp [h2, flatten, pairsLex], ?_,
+        by simp at h4 ⊢; omega, Or.inr ?_⟩
+      · have e1 : BTok.array ea :: BTok.end_ eb :: l0 = [BTok.array ea] ++ [BTok.end_ eb] ++ l0 := by simp
+        rw [e1]
+        have a1 : starts [BTok.array ea] = 1 := rfl
+        have a2 : ends [BTok.array ea] = 0 := rfl
+        have a3 : starts [BTok.end_ eb] = 0 := rfl
+        have a4 : ends [BTok.end_ eb] = 1 := rfl
+        simp only [starts_append, ends_append, a1, a2, a3, a4]; omega
+      · rcases h5 with rfl | ⟨l1, j, rfl⟩
+        · exact ⟨[BTok.array ea], eb, rfl⟩
+        · exact ⟨BTok.array ea :: BTok.end_ eb :: l1, j, by simp⟩
 
 theorem plain_of_counts {y : BTok} (h : starts [y] = ends [y]) : y.isPlain = true := by
   cases y
@@ -164,7 +171,8 @@ theorem allEmptyPairs_lex : ∀ (l : Tape), allEmptyPairs l = true →
 
 theorem equalArm_move {tape : Tape} {parent : Nat} {state : PState} {d dp : Bytes} {st' : St}
     (hr : readId dp = some (L.equal, d)) (h : equalArm tape parent state d = .ok st')
-    (hll : LastLex tape state) (ht : TInv tape parent state) (hg : GInv tape parent state) :
+    (hll : LastLex tape state) (ht : TInv tape parent state) (hg : GInv tape parent state)
+    (hei : EInv tape state) :
     StepMove ⟨tape, parent, state, dp⟩ st' := by
   intro L hL
   obtain ⟨L', rfl, hL'⟩ := hL.uncons (lexOne_equal hr)
@@ -232,16 +240,31 @@ theorem equalArm_move {tape : Tape} {parent : Nat} {state : PState} {d dp : Byte
                 rw [this]; exact hseg1
             obtain ⟨hlk, hgs⟩ := hkey
             subst hm
+            have hne1 := hei.1
             obtain ⟨n, hshape⟩ := allEmptyPairs_tok _ hoe.2
             obtain ⟨odd, hfl, hodd, hn⟩ : ∃ odd, flat (t1.drop (parent + 1)) = pairsLex n ++ odd ∧
-                (odd = [] ∨ ∃ y : BTok, odd = flatten y ∧ y.isPlain = true) ∧ (t1.drop (parent + 1)).length / 2 = n := by
-              rcases hshape with ⟨h1, h2⟩ | ⟨l0, y, h1, h2, h3, h4⟩
+                (odd = [] ∨ ∃ y : BTok, odd = flatten y ∧ y.isVal = true) ∧ (t1.drop (parent + 1)).length / 2 = n := by
+              rcases hshape with ⟨h1, h2⟩ | ⟨l0, y, h1, h2, h3, h4, h5⟩
               · exact ⟨[], by simpa using h1, Or.inl rfl, h2⟩
-              · refine ⟨flatten y, by rw [h1]; simp [h2], Or.inr ⟨y, rfl, ?_⟩, h4⟩
-                have hb := hgs.bal
-                rw [h1] at hb
-                simp only [starts_append, ends_append] at hb
-                exact plain_of_counts (by omega)
+              · have hyp : y.isPlain = true := by
+                  have hb := hgs.bal
+                  rw [h1] at hb
+                  simp only [starts_append, ends_append] at hb
+                  exact plain_of_counts (by omega)
+                -- `y` stands directly behind an `End`, so it is not an `Equal`
+                have hye : y ≠ .equal := by
+                  rcases h5 with rfl | ⟨l1, j, rfl⟩
+                  · have h6 := hoe.1; rw [h1] at h6; simp at h6
+                  · have e : t1 ++ [last] = (t1.take (parent + 1) ++ l1) ++ BTok.end_ j :: y :: [last] := by
+                      conv => lhs; rw [← List.take_append_drop (parent + 1) t1, h1]
+                      simp
+                    rw [e] at hne1
+                    exact noEndEq_pair hne1 j rfl
+                by_cases hym : y = .mixed
+                · subst hym
+                  exact ⟨[], by rw [h1]; simp [h2, flatten], Or.inl rfl, h4⟩
+                · refine ⟨flatten y, by rw [h1]; simp [h2], Or.inr ⟨y, rfl, ?_⟩, h4⟩
+                  simp [BTok.isVal, hyp, hym, hye]
             obtain ⟨e, he, rfl⟩ := setParentToObject_ok hso
             have hl := getElem?_lt_length he
             -- the part up to and including the parent slot: `A ++ [{]`
@@ -275,7 +298,8 @@ theorem closeTo_kind {tape : Tape} {p : Nat} {T' : Tape} {g : Nat} {s : PState} 
 
 theorem tokenArm_move {tape : Tape} {parent : Nat} {state : PState} {d dp : Bytes} {tok : Nat} {st' : St}
     (hr : readId dp = some (tok, d)) (h : tokenArm false 0 tape parent state d tok = .ok st')
-    (hll : LastLex tape state) (ht : TInv tape parent state) (hg : GInv tape parent state) :
+    (hll : LastLex tape state) (ht : TInv tape parent state) (hg : GInv tape parent state)
+    (hei : EInv tape state) :
     StepMove ⟨tape, parent, state, dp⟩ st' := by
   unfold tokenArm at h
   by_cases c1 : tok = L.u32
@@ -387,7 +411,7 @@ theorem tokenArm_move {tape : Tape} {parent : Nat} {state : PState} {d dp : Byte
         rcases hkind with rfl | rfl <;> exact lastLex_other (by simp) (by simp)
   rw [if_neg c10] at h
   by_cases c11 : tok = L.equal
-  · subst c11; rw [if_pos rfl] at h; exact equalArm_move hr h hll ht hg
+  · subst c11; rw [if_pos rfl] at h; exact equalArm_move hr h hll ht hg hei
   rw [if_neg c11] at h
   by_cases c13 : tok = L.i64
   · subst c13
@@ -420,7 +444,8 @@ theorem tokenArm_move {tape : Tape} {parent : Nat} {state : PState} {d dp : Byte
 
 
 theorem step_move {st st' : St} (h : step st = .next st') (hll : LastLex st.tape st.state)
-    (ht : TInv st.tape st.parent st.state) (hg : GInv st.tape st.parent st.state) : StepMove st st' := by
+    (ht : TInv st.tape st.parent st.state) (hg : GInv st.tape st.parent st.state)
+    (hei : EInv st.tape st.state) : StepMove st st' := by
   cases hr : readId st.data with
   | none => rw [step_done hr] at h; cases h
   | some p =>
@@ -446,16 +471,22 @@ theorem step_move {st st' : St} (h : step st = .next st') (hll : LastLex st.tape
           have : t0 ++ [BTok.mixed, x, y] = t0 ++ [BTok.mixed] ++ [x] ++ [y] := by simp
           simp only; rw [this]
           exact ((ho.snoc_plain rfl).snoc_plain hx).snoc_plain hy
-        have := tokenArm_move (dp := st.data) hr hd (lastLex_other (by simp) (by simp)) ht' ⟨top', hog', hc'⟩
+        have hei' : EInv (t0 ++ [BTok.mixed, x, y]) .arrayValueMixed := by
+          refine ⟨?_, fun _ => ?_⟩
+          · have := hei.1; rw [htape] at this; exact noEndEq_insert2 this
+          · have e : t0 ++ [BTok.mixed, x, y] = t0 ++ [BTok.mixed, x] ++ [y] := by simp
+            rw [e]
+            exact lastNotEnd_snoc (by intro j hh; subst hh; simp [BTok.isPlain] at hy)
+        have := tokenArm_move (dp := st.data) hr hd (lastLex_other (by simp) (by simp)) ht' ⟨top', hog', hc'⟩ hei'
         intro L hL
         obtain ⟨L1, L2, o, h1, h2, h3, h4⟩ := this L hL
         refine ⟨L1, L2, o, h1, h2, ?_, h4⟩
         have hf : flat (t0 ++ [BTok.mixed, x, y]) = flat st.tape := by rw [htape]; simp [flatten]
         rw [hf] at h3; rw [hs]; exact h3
-      · exact tokenArm_move (dp := st.data) hr hd hll ht hg
+      · exact tokenArm_move (dp := st.data) hr hd hll ht hg hei
 
 theorem reach_moves {a b : St} (h : Reach a b) (hll : LastLex a.tape a.state)
-    (ht : TInv a.tape a.parent a.state) (hg : GInv a.tape a.parent a.state) :
+    (ht : TInv a.tape a.parent a.state) (hg : GInv a.tape a.parent a.state) (hei : EInv a.tape a.state) :
     ∀ L, Lexes a.data L → ∃ L1 L2 odds, L = L1 ++ L2 ∧ Lexes b.data L2 ∧ Moves (owed a.state) (flat a.tape) L1 (flat b.tape) odds := by
   obtain ⟨k, hk⟩ := h
   induction k generalizing a with
@@ -465,8 +496,8 @@ theorem reach_moves {a b : St} (h : Reach a b) (hll : LastLex a.tape a.state)
     | next a' =>
       simp only [stepN, hst] at hk
       intro L hL
-      obtain ⟨L1, L2, o, rfl, h2, h3, h4⟩ := step_move hst hll ht hg L hL
-      obtain ⟨M1, M2, odds, rfl, g2, g3⟩ := ih h4 (step_inv hst ht) (step_ginv hst ht hg) hk L2 h2
+      obtain ⟨L1, L2, o, rfl, h2, h3, h4⟩ := step_move hst hll ht hg hei L hL
+      obtain ⟨M1, M2, odds, rfl, g2, g3⟩ := ih h4 (step_inv hst ht) (step_ginv hst ht hg) (step_einv hst ht hei) hk L2 h2
       exact ⟨L1 ++ M1, M2, o.toList ++ odds, by simp, g2, Moves.step h3 g3⟩
     | done => simp [stepN, hst] at hk
     | err e => simp [stepN, hst] at hk
@@ -480,7 +511,7 @@ theorem parse_moves (opt : Bool) (data : Bytes) (T : Tape) (h : parse opt data =
     · exact h
     · rwa [parse_true_eq_false] at h
   obtain ⟨r, hr, hreach⟩ := run_false_ok_reach _ _ _ _ h'
-  obtain ⟨L1, L2, odds, rfl, hL2, h3⟩ := reach_moves hreach (lastLex_other (by simp [init]) (by simp [init])) (init_inv data) (init_ginv data) L hL
+  obtain ⟨L1, L2, odds, rfl, hL2, h3⟩ := reach_moves hreach (lastLex_other (by simp [init]) (by simp [init])) (init_inv data) (init_ginv data) (init_einv data) L hL
   have : L2 = [] := by
     cases hL2 with
     | done _ => rfl
@@ -536,7 +567,7 @@ theorem Moves.toks_perm {p : Bool} {A L C : List Lx} {odds : List (List Lx)} (h 
     exact e1.trans (e2.trans (e3.trans e4))
 
 theorem Moves.odds_shape {p : Bool} {A L C : List Lx} {odds : List (List Lx)} (h : Moves p A L C odds) :
-    ∀ o ∈ odds, o = [] ∨ ∃ y : BTok, o = flatten y ∧ y.isPlain = true := by
+    ∀ o ∈ odds, o = [] ∨ ∃ y : BTok, o = flatten y ∧ y.isVal = true := by
   induction h with
   | nil p A => simp
   | @step p q A B C L1 L2 o odds hm _ ih =>
@@ -710,6 +741,85 @@ theorem Moves.last_equal {p : Bool} {A L C : List Lx} {odds : List (List Lx)} (h
           subst hc
           right; exact ⟨A0 ++ [.open_], last, hlk, by rw [hC, isKey_flatten hlk]; simp⟩
 
+theorem pairsLex_no_equal : ∀ n, Lx.equal ∉ pairsLex n
+  | 0 => by simp [pairsLex]
+  | n + 1 => by simp [pairsLex, pairsLex_no_equal n]
+
+theorem isVal_flatten_no_equal {y : BTok} (h : y.isVal = true) : Lx.equal ∉ flatten y := by
+  cases y with
+  | rgb r g b a => cases a <;> simp [flatten]
+  | equal => simp [BTok.isVal] at h
+  | _ => simp [flatten]
+
+/-- **an `=` on the tape is never removed** (the `odd` chunk of a rewrite is never an `=`) -/
+theorem Moves.equal_kept {p : Bool} {A L C : List Lx} {odds : List (List Lx)} (h : Moves p A L C odds)
+    (hA : Lx.equal ∈ A) : Lx.equal ∈ C := by
+  induction h with
+  | nil p A => exact hA
+  | step hm hms ih =>
+    cases hm with
+    | keep => exact ih (by simp [hA])
+    | eqAfterKey => exact ih hA
+    | ghost => exact ih hA
+    | rewrite A0 n odd last hn hlk hodd =>
+      refine ih ?_
+      have hno : Lx.equal ∉ odd := by
+        rcases hodd with rfl | ⟨y, rfl, hy⟩
+        · simp
+        · exact isVal_flatten_no_equal hy
+      have hnp := pairsLex_no_equal n
+      simp only [List.mem_append, List.mem_singleton] at hA ⊢
+      rcases hA with (((hA | hA) | hA) | hA) | hA
+      · exact Or.inl (Or.inl hA)
+      · cases hA
+      · exact absurd hA hnp
+      · exact absurd hA hno
+      · exact Or.inr hA
+
+/-- an `=` read while no scalar / id lexeme is on the tape yet is recorded (it cannot be dropped behind a key,
+and there is no key for a rewrite) -/
+theorem Moves.first_equal {p : Bool} {A L C : List Lx} {odds : List (List Lx)} (h : Moves p A L C odds)
+    (hA : ∀ x ∈ A, Lx.isTok x = false) :
+    ∀ L' R, L = L' ++ Lx.equal :: R → (∀ x ∈ L', Lx.isTok x = false) → Lx.equal ∉ L' → Lx.equal ∈ C := by
+  induction h with
+  | nil p A => intro L' R h; simp at h
+  | @step p q A B C L1 L2 o odds hm hms ih =>
+    intro L' R he hT hE
+    have key : ∀ a', L' = L1 ++ a' → L2 = a' ++ Lx.equal :: R → Lx.equal ∈ C := by
+      intro a' h1 h2
+      subst h1
+      simp only [List.mem_append, not_or] at hE
+      have hT1 : ∀ x ∈ L1, Lx.isTok x = false := fun x hx => hT x (by simp [hx])
+      cases hm with
+      | keep p A L1 hne =>
+        exact ih (by intro x hx; simp at hx; rcases hx with hx | hx; exact hA x hx; exact hT1 x hx) a' R h2
+          (fun x hx => hT x (by simp [hx])) hE.2
+      | eqAfterKey => exact absurd (by simp) hE.1
+      | ghost => exact ih hA a' R h2 (fun x hx => hT x (by simp [hx])) hE.2
+      | rewrite => exact absurd (by simp) hE.1
+    rcases List.append_eq_append_iff.mp he with ⟨a', h1, h2⟩ | ⟨c', h1, h2⟩
+    · exact key a' h1 h2
+    · cases c' with
+      | nil => simp at h1 h2; exact key [] (by simp [h1]) (by simpa using h2.symm)
+      | cons x c'' =>
+        simp at h2; obtain ⟨hx, h2⟩ := h2
+        subst hx
+        cases hm with
+        | keep p A L1 hne => subst h1; exact hms.equal_kept (by simp)
+        | eqAfterKey A0 k hk => have := hA (.tok k) (by simp); simp [Lx.isTok] at this
+        | ghost A0 =>
+          cases L' with
+          | nil => simp at h1
+          | cons y L'1 =>
+            simp at h1
+            obtain ⟨_, h1⟩ := h1
+            cases L'1 with
+            | nil => simp at h1
+            | cons z L'2 => simp at h1
+        | rewrite A0 n odd last hn hlk hodd =>
+          have := hA (.tok last) (by rw [isKey_flatten hlk]; simp)
+          simp [Lx.isTok] at this
+
 /-- NON-instance (reviewer's A): `a = {} b = c` with content `[a, b, c]` — an empty container in VALUE
 position dropped as if it were a ghost — is not explained: while a value is owed only `keep` is possible -/
 example : ¬ ∃ odds, Moves false [] [.tok (.token 1), .equal, .open_, .close, .tok (.token 2), .equal, .tok (.token 3)]
@@ -744,6 +854,15 @@ example : ¬ ∃ odds, Moves false [] [.open_, .open_, .close, .equal, .tok (.to
     have h2 := List.append_inj_left' this rfl
     have h3 := List.append_inj_right' h2 rfl
     simp at h3
+
+/-- NON-instance (reviewer's D): `{ {} = a = b }` with content `[{, a, b, }]` (two `=` dropped by one rewrite,
+`odd` being an `Equal` token) is not explained: `odd` is never an `=`, and the first `=` has no key before it -/
+example : ¬ ∃ odds, Moves false [] [.open_, .open_, .close, .equal, .tok (.token 1), .equal, .tok (.token 2), .close]
+    [.open_, .tok (.token 1), .tok (.token 2), .close] odds := by
+  rintro ⟨odds, h⟩
+  have := h.first_equal (by simp) [.open_, .open_, .close] [.tok (.token 1), .equal, .tok (.token 2), .close] rfl
+    (by simp [Lx.isTok]) (by simp)
+  simp at this
 
 /-- NON-instance: a tape that silently drops an ordinary scalar — input `a = b`, tape content `[a]` — is not
 explained by any run of moves -/
